@@ -28,6 +28,21 @@ def base_inputs(rng, n, truncation_bases=0):
             continue
         for cut in range(len(data) + 1):
             yield p["start"], p["et"], data[:cut], mkmeta(rng, p, data[:cut], ["cut@%d" % cut])
+    # every header octet of some base packets with each single bit flipped and set to 0 / 255: reserved bits, flag
+    # combinations, length octets and type numbers that no serialiser produces, one at a time and systematically
+    for i in range(max(2, truncation_bases // 10)):
+        p = pktgen.gen_packet(rng)
+        data = bytes(p["data"])
+        hdr = len(data) - p.get("paylen", 0)
+        if len(data) > 200 or hdr <= 0:
+            continue
+        tail = bytes(rng.randrange(256) for _ in range(rng.choice([0, 0, 8, 24])))
+        for pos in range(min(hdr, 120)):
+            for v in sorted({data[pos] ^ (1 << b) for b in range(8)} | {0, 255}):
+                if v == data[pos]:
+                    continue
+                d = data[:pos] + bytes([v]) + data[pos + 1 :] + tail
+                yield p["start"], p["et"], d, mkmeta(rng, p, d, ["sweep@%d=%d" % (pos, v)])
 
 
 def mkmeta(rng, p, data, notes):
